@@ -442,10 +442,121 @@ def run_apply(case: dict, v: dict) -> dict:
             "exc": exc, "stage": stage, "realized": w.realized}
 
 
+# ---------------------------------------------------------------------------
+# a rewrite that adds an alignment requirement: a patch containing `.align N`
+# ---------------------------------------------------------------------------
+CODE0 = 0x50  # one-byte instructions (push %r..): every offset is a boundary
+
+
+def alpatch_text(v: dict) -> str:
+    return "push %rdi\n" * v["pre"] + f".align {v['n']}\npush %rbx\npop %rbx\n"
+
+
+def assemble_alpatch(v: dict) -> dict:
+    """The patch assembled on its own (independent of the rewrite): the bytes
+    before the `.align`, the bytes from it on, and the alignment it asks for."""
+    from gtirb_rewriting.assembler import Assembler
+    from gtirb_rewriting.assembly import X86Syntax
+
+    ir = gtirb.IR()
+    m = gtirb.Module(name="p", isa=ISAS[v["mod"]], file_format=FORMATS[v["fmt"]],
+                     byte_order=gtirb.Module.ByteOrder.Little, ir=ir)
+    asm = Assembler(m, temp_symbol_suffix="_0")
+    asm.assemble(alpatch_text(v), X86Syntax.ATT)
+    ts = asm.finalize().text_section
+    aligned = [b for b in ts.blocks if b in ts.alignment]
+    cut = aligned[0].offset if aligned else len(ts.data)
+    return {"pp": list(bytes(ts.data[:cut])), "pa": list(bytes(ts.data[cut:])),
+            "n": int(ts.alignment[aligned[0]]) if aligned else 0}
+
+
+def table_state(m: gtirb.Module) -> str:
+    if "alignment" not in m.aux_data:
+        return "absent"
+    return "entries" if len(m.aux_data["alignment"].data) else "empty"
+
+
+def aligned_addresses(w: World) -> List[dict]:
+    m = w.module
+    out = []
+    if m is not None and "alignment" in m.aux_data:
+        for node, a in m.aux_data["alignment"].data.items():
+            if isinstance(node, gtirb.ByteBlock) and node.byte_interval is not None \
+                    and node.byte_interval.module is m:
+                out.append({"id": w.ids.get(node.uuid, 0), "a": int(a),
+                            "addr": -1 if node.address is None else node.address,
+                            "o": node.offset, "s": node.size})
+            else:
+                out.append({"id": w.ids.get(getattr(node, "uuid", None), 0), "a": int(a),
+                            "addr": -2, "o": 0, "s": 0})
+    out.sort(key=lambda d: (d["addr"], d["a"], d["id"]))
+    return out
+
+
+def run_alpatch(case: dict, v: dict) -> dict:
+    """The layout's blocks tile the interval with code; the alignment table of
+    the module is absent / empty / has an entry for the first block; a patch
+    with `.align N` is inserted into the second block."""
+    from gtirb_rewriting import Patch, patch_constraints
+    from gtirb_rewriting.assembly import X86Syntax
+
+    w = World()
+    w.ir = gtirb.IR()
+    m = w.module = gtirb.Module(name="m", isa=ISAS[v["mod"]], file_format=FORMATS[v["fmt"]],
+                                byte_order=gtirb.Module.ByteOrder.Little, ir=w.ir)
+    sec = gtirb.Section(name=".text", flags=set(TEXT_FLAGS), module=m)
+    bi = gtirb.ByteInterval(address=case["addr"], size=case["n"],
+                            contents=bytes(CODE0 + i for i in range(case["n"])), section=sec)
+    w.interval = bi
+    w.ids[bi.uuid] = 100
+    place_blocks(w, case)
+    for i, b in enumerate(w.blocks):
+        gtirb.Symbol(name=f"b{i + 1}", payload=b, module=m)
+    for a, b in zip(w.blocks, w.blocks[1:]):
+        w.ir.cfg.add(gtirb.Edge(a, b, gtirb.Edge.Label(gtirb.Edge.Type.Fallthrough)))
+    if v["altab"] == "empty":
+        _auxdata.alignment.get_or_insert(m)
+    elif v["altab"] == "entries":
+        _auxdata.alignment.get_or_insert(m)[w.blocks[0]] = 16
+    patch = assemble_alpatch(v)
+    text = alpatch_text(v)
+
+    @patch_constraints(x86_syntax=X86Syntax.ATT)
+    def fn(ctx):
+        return text
+
+    pre = project(w, [bi], canonical=True)
+    tab_pre = table_state(m)
+    alx_pre = aligned_addresses(w)
+    target = w.blocks[1]
+    exc, stage = "", "init"
+    try:
+        ctx = RewritingContext(m, [])
+        ctx.insert_at(target, v["off"], Patch.from_function(fn))
+        stage = "apply"
+        ctx.apply()
+        stage = "done"
+    except BaseException as e:  # observed; judged in TLA+
+        exc = type(e).__name__
+        if os.environ.get("VERIF_DEBUG"):
+            traceback.print_exc()
+    post = project(w, module_intervals(w), canonical=True)
+    return {"v": v, "pre": pre, "post": post, "exc": exc, "stage": stage,
+            "p": target.offset + v["off"] if stage == "init" else case["blocks"][1]["o"] + v["off"],
+            "pp": patch["pp"], "pa": patch["pa"], "pn": patch["n"],
+            "tabpre": tab_pre, "tabpost": table_state(m),
+            "alxpre": alx_pre, "alx": aligned_addresses(w), "realized": w.realized}
+
+
 def run_case(case: dict) -> List[dict]:
     out = []
     for k, v in enumerate(case["vs"]):
-        tr = run_apply(case, v) if v["op"] == "apply" else run_sj(case, v)
+        if v["op"] == "apply":
+            tr = run_apply(case, v)
+        elif v["op"] == "alpatch":
+            tr = run_alpatch(case, v)
+        else:
+            tr = run_sj(case, v)
         tr["id"] = f"{case['id']}#{k}"
         out.append(tr)
     return out
